@@ -3273,6 +3273,15 @@ fn run(cfg: &Config, s: &mut Session) {
     let files = corpus_files();
     let n_mut = if thorough { 60 } else { 7 };
     let mut jobs: Vec<String> = vec![];
+    // minimized past failures run first (harness/corpus/c02_font_requests.txt)
+    let past: Vec<String> = include_str!("../../corpus/c02_font_requests.txt")
+        .lines()
+        .map(|l| l.trim())
+        .filter(|l| l.starts_with("font "))
+        .map(|l| l.to_string())
+        .collect();
+    s.notes.push(format!("{} past-failure font requests replayed first", past.len()));
+    jobs.extend(past);
     for f in &files {
         jobs.push(format!("font {} 0 {} 1", f.display(), rng.next() % 1_000_000));
         for _ in 0..n_mut {
